@@ -175,7 +175,17 @@ def handler : Handler := fun op args =>
       let fmtU (r : Result) : String :=
         fmtOptChar r.fmt.hAlign ++ " * " ++ fmtOptChar r.fmt.vAlign ++ " * " ++ fmtAlpha r.alpha ++ " " ++
           fmtArgs (r.args.filter fun a => a.1 != "z_index")
-      pure (fmtExcept (if e == "urwid" then fmtU else fmtResult) r)) args
+      if e == "urwid" then
+        let (_, took, r') := urwidEntry (fun (n : Nat) => ((n : Int), n + 1)) mro cols lines s 0
+        pure (fmtExcept fmtU r' ++ " pool " ++ fmtBool took)
+      else pure (fmtExcept fmtResult r)) args
+  | "citer" => run (do
+      -- <style> <subclass depth> <cols> <lines> <frames> <n> <size changed before loop 2..> <spec>
+      let st ← pStyle; let depth ← nat; let cols ← nat; let lines ← nat; let nf ← nat
+      let changed ← listOf bool; let s ← chars
+      let mro := (List.range depth).reverse.map KName.app ++ styleMro st
+      pure (fmtExcept (fun rs => fmtList (fun r => "[" ++ fmtResult r ++ "]") rs)
+        (iterEntry mro cols lines s nf changed))) args
   | "draw" => run (do
       let st ← pStyle; let cols ← nat; let lines ← nat
       let h ← optOf chars; let w ← int; let v ← optOf chars; let ht ← int
